@@ -31,15 +31,18 @@ property exit 1{note}.
 for pid in sorted(by):
     L.append(f"| {pid} | " + ", ".join(n.split("-", 1)[1] for n in by[pid]) + " |")
 L.append(f"""
-### 12.2 Independently written breaking changes (`seeded/<property>-<a..j>/`)
+### 12.2 Independently written breaking changes (`seeded/<property>-<a..m>/`)
 
-{len(metas)} changes were written by fresh sub-agents in four rounds (a, b: first round; c, d: second round, where each
+{len(metas)} changes were written by fresh sub-agents in five rounds (a, b: first round; c, d: second round, where each
 agent was additionally told in one line each what the first round had done, so as to do something else, and was
 pushed towards multi-step and cross-feature conditions; e, f: third round, told about both earlier rounds and pushed
 towards changes in *other* modules than the obvious one - codecs, `config.py` identity and matching helpers, the send
 path, session storage - and towards effects that need state accumulated over a long history; h, i: fourth round, told
 about all earlier ones and asked for lifecycle / ordering, aliasing / shared state, arithmetic / boundary and error-path
-changes; g, j: spare changes two agents delivered on top). An agent got only the text of one property and a scratch
+changes; k, l: fifth round, asked for changes to shared infrastructure that break the property through an indirect
+path, changes that need several of something at once (peers, instances, connections, protocol objects in one process),
+a long history or a large value, or that rest on a wrong assumption about the event loop; g, j, m: spare changes some
+agents delivered on top). An agent got only the text of one property and a scratch
 worktree of `/repo` - nothing from `/verif`. Each change comes with `patch.diff`, a demonstration `demo.py` (passes on the
 unchanged tree, fails with the patch) and `meta.json`. `tools/try_seeded.py` re-confirmed all of that in a scratch
 worktree (demo both ways, unedited test suite green with the patch) and then ran the property's quick check against the
@@ -71,7 +74,10 @@ offers that come and go inside session histories; more than 64 destinations; ent
 endpoint options in another order in the refresh; requesters that restart while an answer is pending; the datagram
 protocol's own dispatch loop; a stop in the very iteration of a discovery; node stop / start inside session
 histories and malformed messages in front of good ones in a datagram; several ports per destination host; event ids
-with bit 15 set; several connections per process; two instances
+with bit 15 set; several connections per process; crowds of several hundred senders; SD messages and bursts
+beyond one 1400-byte datagram; options that change between the offers of one instance; 194 days of quiet; a second SD
+stack in the same process; IPv6 and IPv4-mapped callers; payloads in a thousand pieces; objects built before the loop
+runs; two instances
 sharing service and instance id; a lost StopOffer followed by a restart within the TTL; empty event values; messages
 with the unicast flag clear; peer restarts during the session-id soak; one endpoint in two eventgroups; type bytes
 with the TP bit). Each is now generated on purpose and most are reported as probes in the evidence.
